@@ -22,7 +22,9 @@
 (* C06: IndexesAgree, LayersParallel; C16: IndexesAgree (=NoLossNoDup),         *)
 (* StatsExact in every state; C04: ReopenSeesAll.                               *)
 EXTENDS Integers, Sequences, FiniteSets, TLC
-CONSTANTS MaxRows, ChanCap, FixedAlter, MaxPersists, MaxDeletes, FirstOnlyModified
+CONSTANTS MaxRows, ChanCap, FixedAlter, MaxPersists, MaxDeletes, FirstOnlyModified,
+          MaxLoads,    \* table loads on the running database (Database.Load(table))
+          DirectLoad   \* TRUE = before fix 90a29de: the caller replaces the table itself
 
 VARIABLES rows,      \* committed logical content (set of row ids)
           ndel,      \* number of delete transactions so far
@@ -35,9 +37,10 @@ VARIABLES rows,      \* committed logical content (set of row ids)
           chan,      \* mergeChan: Seq of "m" (merge todo for the table) or "fn"
           mpc,       \* merger program counter record
           alter,     \* AlterCreate progress record
-          npersist, durable
+          npersist, durable,
+          load       \* table load progress record
 
-vars == <<rows, ndel, nextRow, ixs, bt, layers, deltas, nrows, btreeNrows, chan, mpc, alter, npersist, durable>>
+vars == <<rows, ndel, nextRow, ixs, bt, layers, deltas, nrows, btreeNrows, chan, mpc, alter, npersist, durable, load>>
 Idx == {"i1", "i2"}
 
 Empty == [a |-> {}, d |-> {}]
@@ -62,8 +65,9 @@ Init == /\ rows = {} /\ ixs = {"i1"}
         /\ mpc = [pc |-> "idle"]
         /\ alter = [pc |-> "none"]
         /\ npersist = 0 /\ durable = <<>>
+        /\ load = [pc |-> "none", n |-> 0]
 
-Exclusive == alter.pc \in {"excl", "built", "queued"}
+Exclusive == alter.pc \in {"excl", "built", "queued"} \/ load.pc \in {"excl", "queued"}
 
 Commit == /\ ~Exclusive
           /\ nextRow <= MaxRows
@@ -75,7 +79,7 @@ Commit == /\ ~Exclusive
              /\ deltas' = Append(deltas, 1)
              /\ nrows' = nrows + 1
              /\ chan' = Append(chan, "m")
-          /\ UNCHANGED <<ndel, ixs, bt, btreeNrows, mpc, alter, npersist, durable>>
+          /\ UNCHANGED <<ndel, ixs, bt, btreeNrows, mpc, alter, npersist, durable, load>>
 
 \* a committed transaction deleting one visible row from every index
 CommitDelete == /\ ~Exclusive /\ ndel < MaxDeletes /\ Len(chan) < ChanCap
@@ -86,7 +90,7 @@ CommitDelete == /\ ~Exclusive /\ ndel < MaxDeletes /\ Len(chan) < ChanCap
                 /\ nrows' = nrows - 1
                 /\ ndel' = ndel + 1
                 /\ chan' = Append(chan, "m")
-                /\ UNCHANGED <<nextRow, ixs, bt, btreeNrows, mpc, alter, npersist, durable>>
+                /\ UNCHANGED <<nextRow, ixs, bt, btreeNrows, mpc, alter, npersist, durable, load>>
 
 \* merger takes 1..k consecutive merge todos from the head (drain takes what is there)
 MergerTake == /\ mpc.pc = "idle" /\ chan # <<>> /\ Head(chan) = "m"
@@ -94,21 +98,25 @@ MergerTake == /\ mpc.pc = "idle" /\ chan # <<>> /\ Head(chan) = "m"
                     /\ \A j \in 1..n : chan[j] = "m"
                     /\ chan' = SubSeq(chan, n + 1, Len(chan))
                     /\ mpc' = [pc |-> "taken", n |-> n]
-              /\ UNCHANGED <<rows, ndel, nextRow, ixs, bt, layers, deltas, nrows, btreeNrows, alter, npersist, durable>>
+              /\ UNCHANGED <<rows, ndel, nextRow, ixs, bt, layers, deltas, nrows, btreeNrows, alter, npersist, durable, load>>
 
-MergeCompute == /\ mpc.pc = "taken"
+\* the merger's todo count must fit the table's layers (else the code panics: FATAL in merger)
+MergeFits == mpc.pc \in {"taken", "merged"} => mpc.n + 1 <= Len(deltas)
+QueueFits == Cardinality({ j \in 1..Len(chan) : chan[j] = "m" })
+                + (IF mpc.pc \in {"taken", "merged"} THEN mpc.n ELSE 0) + 1 = Len(deltas)
+MergeCompute == /\ mpc.pc = "taken" /\ MergeFits
                 /\ mpc' = [pc |-> "merged", n |-> mpc.n,
                            res |-> [i \in ixs |-> Fold(SubSeq(layers[i], 1, mpc.n + 1))]]
-                /\ UNCHANGED <<rows, ndel, nextRow, ixs, bt, layers, deltas, nrows, btreeNrows, chan, alter, npersist, durable>>
+                /\ UNCHANGED <<rows, ndel, nextRow, ixs, bt, layers, deltas, nrows, btreeNrows, chan, alter, npersist, durable, load>>
 
-MergeApply == /\ mpc.pc = "merged"
+MergeApply == /\ mpc.pc = "merged" /\ MergeFits
               /\ LET n == mpc.n IN
                  /\ layers' = [i \in Idx |-> IF i \in DOMAIN mpc.res
                                  THEN << mpc.res[i] >> \o SubSeq(layers[i], n + 2, Len(layers[i]))
                                  ELSE layers[i]]
                  /\ deltas' = << Sum(SubSeq(deltas, 1, n + 1)) >> \o SubSeq(deltas, n + 2, Len(deltas))
               /\ mpc' = [pc |-> "idle"]
-              /\ UNCHANGED <<rows, ndel, nextRow, ixs, bt, nrows, btreeNrows, chan, alter, npersist, durable>>
+              /\ UNCHANGED <<rows, ndel, nextRow, ixs, bt, nrows, btreeNrows, chan, alter, npersist, durable, load>>
 
 \* Meta.Persist: is this table saved?
 Modified == IF FirstOnlyModified THEN ~IsEmpty(layers["i1"][1])
@@ -117,7 +125,7 @@ Modified == IF FirstOnlyModified THEN ~IsEmpty(layers["i1"][1])
 PersistCompute == /\ mpc.pc = "idle" /\ npersist < MaxPersists
                   /\ Modified
                   /\ mpc' = [pc |-> "saved", res |-> [i \in ixs |-> ApplyL(bt[i], layers[i][1])]]
-                  /\ UNCHANGED <<rows, ndel, nextRow, ixs, bt, layers, deltas, nrows, btreeNrows, chan, alter, npersist, durable>>
+                  /\ UNCHANGED <<rows, ndel, nextRow, ixs, bt, layers, deltas, nrows, btreeNrows, chan, alter, npersist, durable, load>>
 
 PersistApply == /\ mpc.pc = "saved"
                 /\ bt' = [i \in Idx |-> IF i \in DOMAIN mpc.res THEN mpc.res[i] ELSE bt[i]]
@@ -127,20 +135,20 @@ PersistApply == /\ mpc.pc = "saved"
                 /\ npersist' = npersist + 1
                 /\ durable' = Append(durable, [i \in ixs |-> bt'[i]])
                 /\ mpc' = [pc |-> "idle"]
-                /\ UNCHANGED <<rows, ndel, nextRow, ixs, nrows, chan, alter>>
+                /\ UNCHANGED <<rows, ndel, nextRow, ixs, nrows, chan, alter, load>>
 
-AlterBegin == /\ alter.pc = "none" /\ rows # {}
+AlterBegin == /\ alter.pc = "none" /\ rows # {} /\ ~Exclusive
               /\ alter' = [pc |-> "excl"]
-              /\ UNCHANGED <<rows, ndel, nextRow, ixs, bt, layers, deltas, nrows, btreeNrows, chan, mpc, npersist, durable>>
+              /\ UNCHANGED <<rows, ndel, nextRow, ixs, bt, layers, deltas, nrows, btreeNrows, chan, mpc, npersist, durable, load>>
 
 AlterBuild == /\ alter.pc = "excl"
               /\ alter' = [pc |-> "built", nl |-> Len(layers["i1"]), content |-> Flatten("i1")]
-              /\ UNCHANGED <<rows, ndel, nextRow, ixs, bt, layers, deltas, nrows, btreeNrows, chan, mpc, npersist, durable>>
+              /\ UNCHANGED <<rows, ndel, nextRow, ixs, bt, layers, deltas, nrows, btreeNrows, chan, mpc, npersist, durable, load>>
 
 AlterQueue == /\ alter.pc = "built" /\ Len(chan) < ChanCap
               /\ chan' = Append(chan, "fn")
               /\ alter' = [alter EXCEPT !.pc = "queued"]
-              /\ UNCHANGED <<rows, ndel, nextRow, ixs, bt, layers, deltas, nrows, btreeNrows, mpc, npersist, durable>>
+              /\ UNCHANGED <<rows, ndel, nextRow, ixs, bt, layers, deltas, nrows, btreeNrows, mpc, npersist, durable, load>>
 
 MergerRunFn == /\ mpc.pc = "idle" /\ chan # <<>> /\ Head(chan) = "fn"
                /\ chan' = Tail(chan)
@@ -149,16 +157,44 @@ MergerRunFn == /\ mpc.pc = "idle" /\ chan # <<>> /\ Head(chan) = "fn"
                /\ LET nl == IF FixedAlter THEN Len(layers["i1"]) ELSE alter.nl IN
                   layers' = [layers EXCEPT !["i2"] = [j \in 1..nl |-> Empty]]
                /\ alter' = [pc |-> "done"]
-               /\ UNCHANGED <<rows, ndel, nextRow, deltas, nrows, btreeNrows, mpc, npersist, durable>>
+               /\ UNCHANGED <<rows, ndel, nextRow, deltas, nrows, btreeNrows, mpc, npersist, durable, load>>
+
+\* Database.Load(table): tools.loadDbTable takes the table exclusive, builds the new table
+\* (content: any earlier content, here any subset of the current rows) and replaces the
+\* table: schema + info with fresh single-layer overlays (Database.OverwriteTable). Since
+\* fix 90a29de the replacement is a closure run by the merger (RunEndExclusive); before, the
+\* caller's goroutine did it directly (DirectLoad), concurrently with a merge or persist
+\* computed on the old table.
+LoadBegin == /\ load.pc \in {"none", "done"} /\ load.n < MaxLoads /\ ~Exclusive
+             /\ \E c \in SUBSET rows : load' = [pc |-> "excl", n |-> load.n + 1, content |-> c]
+             /\ UNCHANGED <<rows, ndel, nextRow, ixs, bt, layers, deltas, nrows, btreeNrows, chan, mpc, alter, npersist, durable>>
+Overwrite == /\ rows' = load.content
+             /\ bt' = [i \in Idx |-> IF i \in ixs THEN load.content ELSE bt[i]]
+             /\ layers' = [i \in Idx |-> IF i \in ixs THEN << Empty >> ELSE layers[i]]
+             /\ deltas' = << 0 >>
+             /\ nrows' = Cardinality(load.content) /\ btreeNrows' = Cardinality(load.content)
+             /\ load' = [pc |-> "done", n |-> load.n]
+LoadDirect == /\ DirectLoad /\ load.pc = "excl"
+              /\ Overwrite
+              /\ UNCHANGED <<ndel, nextRow, ixs, chan, mpc, alter, npersist, durable>>
+LoadQueue == /\ ~DirectLoad /\ load.pc = "excl" /\ Len(chan) < ChanCap
+             /\ chan' = Append(chan, "ld")
+             /\ load' = [load EXCEPT !.pc = "queued"]
+             /\ UNCHANGED <<rows, ndel, nextRow, ixs, bt, layers, deltas, nrows, btreeNrows, mpc, alter, npersist, durable>>
+MergerRunLoad == /\ mpc.pc = "idle" /\ chan # <<>> /\ Head(chan) = "ld"
+                 /\ chan' = Tail(chan)
+                 /\ Overwrite
+                 /\ UNCHANGED <<ndel, nextRow, ixs, mpc, alter, npersist, durable>>
 
 \* the final persist also goes through Meta.Persist (same Modified test)
-CleanClose == /\ chan = <<>> /\ mpc.pc = "idle" /\ alter.pc \in {"none", "done"} /\ npersist < 99
+CleanClose == /\ chan = <<>> /\ mpc.pc = "idle" /\ alter.pc \in {"none", "done"} /\ load.pc \in {"none", "done"} /\ npersist < 99
               /\ bt' = [i \in Idx |-> IF i \in ixs /\ Modified THEN ApplyL(bt[i], layers[i][1]) ELSE bt[i]]
               /\ layers' = [i \in Idx |-> IF Modified THEN << Empty >> \o Tail(layers[i]) ELSE layers[i]]
               /\ npersist' = 99
-              /\ UNCHANGED <<rows, ndel, nextRow, ixs, deltas, nrows, btreeNrows, chan, mpc, alter, durable>>
+              /\ UNCHANGED <<rows, ndel, nextRow, ixs, deltas, nrows, btreeNrows, chan, mpc, alter, durable, load>>
 NextOpen == Commit \/ CommitDelete \/ MergerTake \/ MergeCompute \/ MergeApply \/ PersistCompute \/ PersistApply
         \/ AlterBegin \/ AlterBuild \/ AlterQueue \/ MergerRunFn
+        \/ LoadBegin \/ LoadDirect \/ LoadQueue \/ MergerRunLoad
 Next == CleanClose \/ (npersist < 99 /\ NextOpen)
 Spec == Init /\ [][Next]_vars
 
